@@ -15,6 +15,23 @@ mod vp_kani_unstable {
         kani::cover!(d == 250);
     }
 
+    // in between the end points the bound is the linear interpolation 500 - (n / 1500) x (500 - lo), rounded to the nearest
+    // integer (checked in integers, scaled by 1500: |1500 d - (1500 x 500 - n x (500 - lo))| <= 750, +1 for the f64 division)
+    #[kani::proof]
+    fn c03_depth_bound_interpolation() {
+        let n16: u16 = kani::any();
+        kani::assume(n16 < 1500);
+        let n = n16 as usize;
+        let t: u32 = kani::any();
+        let d = testnet_unstable_max_depth_difference(n, t).get();
+        let lo = t.min(499) as u64;
+        let exact = 1500u64 * 500 - (n as u64) * (500 - lo);
+        let got = 1500u64 * d;
+        let diff = if got >= exact { got - exact } else { exact - got };
+        assert!(diff <= 751);
+        kani::cover!(d == 250);
+    }
+
     // monotone: more unstable blocks never enlarge the bound
     #[kani::proof]
     fn c03_depth_bound_monotone() {
